@@ -180,6 +180,8 @@ func (b *binding) emitSetP() {
 	if b.isConst {
 		if b.isStrict || b.scope.c.scope.strict {
 			b.scope.c.emit(throwAssignToConst)
+		} else {
+			b.scope.c.emit(pop)
 		}
 		return
 	}
